@@ -321,15 +321,20 @@ impl Consume for SenderFlowState {
     /// does not have any effect. Thus, this IS cancel safe.
     async fn consume(&self, item: Self::Item) -> Self::Outcome {
         loop {
+            // Register interest in a notification *before* checking the credit. A `Notified`
+            // future receives `notify_waiters()` wakeups from the moment it is created, so
+            // credit that is granted between the failed check and the `.await` below is not
+            // missed (it used to be lost, leaving the sender asleep with credit available).
+            let notified = self.notifier.notified();
             match consume_link_credit(&self.state().lock, item) {
                 Ok(outcome) => return outcome,
                 #[cfg(fe2o3_amqp_verif)]
                 Err(_) => {
                     crate::verif::sched_point("sender-credit-check-failed").await;
-                    self.notifier.notified().await
+                    notified.await
                 }
                 #[cfg(not(fe2o3_amqp_verif))]
-                Err(_) => self.notifier.notified().await, // **NOT** cancel safe
+                Err(_) => notified.await, // **NOT** cancel safe
             }
         }
     }
